@@ -32,6 +32,13 @@ rule("C01.j", "a report column that is accumulated with += inside a loop over ma
               "loop, in every pass that selects the rows: a pass that selects the same rows again (an asset listing one node twice) "
               "must not add them a second time", floor=2)
 
+rule("C05.n", "the series reported per storage (charge, discharge, fill level) are built from the rows of *all* nodes of the storage: a "
+              "selector on the node column inside the storage-specific report block names every node (isin(node_names)), never one slot",
+     floor=1)
+
+rule("C04.h", "split optimisation: the value and the solution vector of the combined result are extended for every interval under the "
+              "same conditions (an interval whose solution is appended also contributes its value)", floor=1, props=["C04", "C14"])
+
 VAR = ("c", "l", "u")
 ROW = ("A", "b", "cType")
 
@@ -233,6 +240,52 @@ def _accumulators(ctx):
                        node=(guarded[0] if guarded else st), ok_detail="reset by `%s`" % (au.short(resets[-1], 40) if resets else ""))
     ctx.require(n_i >= 2, "fewer than 2 accumulated report columns found in io", rules=['C01.j'])
 
+    # ---------------------------------------------------------------- C04.h combined result of the split optimisation
+    so = p.fn_opt("SplitOptimProblem.optimize")
+    if so is None:
+        ctx.ob("C04.h", "SplitOptimProblem", "combined result", None, "SplitOptimProblem.optimize not found")
+    else:
+        ev = {"value": [], "x": []}
+        for st in au.walk_stmts(so.body):
+            t = au.stmt_targets(st)[0] if isinstance(st, (ast.Assign, ast.AugAssign)) and au.stmt_targets(st) else None
+            if isinstance(t, ast.Attribute) and t.attr in ev and any(isinstance(a, ast.For) for a in p.ancestors(st)):
+                grows = isinstance(st, ast.AugAssign) or au.U(t) in au.U(st.value)
+                if grows:
+                    ev[t.attr].append((_context(p, st, so), st))
+        if not ev["value"] or not ev["x"]:
+            ctx.ob("C04.h", so, "value and x of the combined result", None, "accumulation of .value / .x over the intervals not recognised")
+        else:
+            cv, cx = sorted(c for c, _ in ev["value"]), sorted(c for c, _ in ev["x"])
+            fmt = lambda evs: [" and ".join(("%s" if arm else "not (%s)") % t0 for t0, arm in e) or "always" for e in evs]
+            ctx.ob("C04.h", so, "value and x of the combined result grow together", cv == cx,
+                   "the solution vector is extended under %s but the value under %s: for an interval that fails the extra condition (a MIP "
+                   "interval returns no duals) the solution is appended while its value is not added - the reported value (0 for an all-MIP "
+                   "split) no longer equals the sum of the cash-flow table, which is computed from x" % (fmt(cx), fmt(cv)), node=ev["value"][0][1])
+
+    # ---------------------------------------------------------------- C05.n node selectors of the per-storage report
+    io_fn = p.fn_opt("io.extract_output")
+    if io_fn is not None:
+        n_n = 0
+        for iff in [s0 for s0 in au.walk_stmts(io_fn.body) if isinstance(s0, ast.If) and any(
+                isinstance(c, ast.Call) and isinstance(c.func, ast.Name) and c.func.id == "isinstance" and len(c.args) == 2 and au.U(c.args[1]) == "Storage"
+                for c in au.walk_local(s0.test))]:
+            for st in au.walk_stmts(iff.body):
+                for x in au.walk_own(st):
+                    node_col = lambda e: isinstance(e, ast.Subscript) and au.const_str(e.slice) == "node"
+                    if isinstance(x, ast.Compare) and len(x.ops) == 1 and isinstance(x.ops[0], ast.Eq) and (node_col(x.left) or node_col(x.comparators[0])):
+                        n_n += 1
+                        other = x.comparators[0] if node_col(x.left) else x.left
+                        ctx.ob("C05.n", io_fn, au.short(x, 70), False,
+                               "the rows for the storage's own report series are selected with node == %s, one node slot: a storage with separate "
+                               "charge and discharge nodes has its discharge rows at the other node, so the reported discharge is identically 0 "
+                               "and the reported level is not explained by the reported charge / discharge" % au.short(other, 30), node=x)
+                    if isinstance(x, ast.Call) and au.method_name(x) == "isin" and isinstance(x.func, ast.Attribute) and node_col(x.func.value):
+                        n_n += 1
+                        ok = bool(x.args) and ("node_names" in au.U(x.args[0]) or "nodes" in au.U(x.args[0]))
+                        ctx.ob("C05.n", io_fn, au.short(x, 70), ok, "the node selector does not name the storage's nodes: %s" % au.short(x, 60), node=x)
+        if n_n == 0:
+            ctx.ob("C05.n", io_fn, "node selector of the storage report", None, "no selector on the node column found in the storage-specific block")
+
     # anchor: the order book collects its rows in a loop; if it never re-initialises the collection there is nothing to judge
     ob = p.fn_opt("OrderBook.setup_optim_problem")
     ctx.require(ob is not None, "OrderBook.setup_optim_problem vanished", rules=['C20.g'])
@@ -246,7 +299,7 @@ def _accumulators(ctx):
     return n
 
 
-@analysis("lockstep", ["C07.c", "C07.d", "C20.g", "C07.r", "C01.j"])
+@analysis("lockstep", ["C07.c", "C07.d", "C20.g", "C07.r", "C01.j", "C05.n", "C04.h"])
 def run(ctx):
     p = ctx.p
     n_var = n_row = 0
